@@ -448,6 +448,33 @@ def mon_c15(h, outs):
                             fails.append(("c15:modified-instance-moved:%s" % nm,
                                           "ModifyAttribute of instance %d of %s on object %s: instances were %s, are now "
                                           "%s (expected %s: the others keep their position)" % (idx, nm, u, was, now, want), i))
+        # a successful DeleteAttribute of one instance of a multi-valued attribute removes exactly THAT instance
+        # (KMIP 1.x: the instance with the given index, index 0 when none is given; KMIP 2.0: the instance with the
+        # given current value)
+        if len(items) == 1 and items[0]["op"] == "deleteAttribute" and "results" in o and len(o["results"]) == 1 \
+                and o["results"][0].get("status") == "ok":
+            it = items[0]
+            u = it.get("uid")
+            ver = j["req"]["version"]
+            if u in b and u in a:
+                nm = it.get("name") if ver < 20 else (it.get("current") or {}).get("name")
+                fld = {"Name": "names", "Application Specific Information": "appinfo", "Object Group": "groups"}.get(nm)
+                if fld is not None:
+                    was = [list(x) if isinstance(x, (list, tuple)) else x for x in b[u][fld]]
+                    now = [list(x) if isinstance(x, (list, tuple)) else x for x in a[u][fld]]
+                    idx = None
+                    if ver < 20:
+                        idx = it.get("index") or 0
+                    else:
+                        cv = (it.get("current") or {}).get("value") or {}
+                        c = [cv.get("ns"), cv.get("d")] if fld == "appinfo" else cv.get("v")
+                        idx = was.index(c) if c in was else None
+                    if idx is not None and 0 <= idx < len(was):
+                        want = was[:idx] + was[idx + 1:]
+                        if now != want:
+                            fails.append(("c15:delete-removed-other-instances:%s" % nm,
+                                          "DeleteAttribute of instance %d of %s on object %s (KMIP %s): instances were %s, "
+                                          "are now %s (expected %s)" % (idx, nm, u, ver, was, now, want), i))
         if attr_only and "results" in o:
             targets = set(it.get("uid") for it, r in zip(items, o["results"]) if r.get("status") == "ok")
             for u, ob in b.items():
